@@ -73,6 +73,12 @@ def gen_cases(tier, seed):
         cases.append({"code": code, "insize": [3, 2, 300], "chunk": [64, 64, 64],
                       "channels": "1", "dtype": "uint8", "fmt": "png", "storage": "flat",
                       "slice_rel": 3, "cli": False, "vseed": rnd.randrange(2 ** 32)})
+    # directed: wide / tall slices (more than 256 pixels along one image axis)
+    for code in rnd.sample(CODES, 6 if tier == "quick" else 24):
+        cases.append({"code": code, "insize": rnd.choice([[300, 3, 5], [2, 270, 4]]),
+                      "chunk": [64, 64, 64], "channels": rnd.choice(["1", "rgb"]),
+                      "dtype": "uint8", "fmt": "png", "storage": "deep", "slice_rel": 3,
+                      "cli": False, "vseed": rnd.randrange(2 ** 32)})
     return cases
 
 
@@ -129,6 +135,7 @@ def run_case(case):
            "slice_groups": {"fewer": int(ns < depth), "equal": int(ns == depth),
                             "partial_last": int(ns > depth and ns % depth != 0)},
            "more_than_256_slices": int(ns > 256),
+           "more_than_256_pixels": int(ncol > 256 or nr > 256),
            "reversed_slice_axis": int(code[2] in "LPI"), "rgb": int(rgb),
            "multi_dir": int(ndirs > 1), "uint16": int(dt == np.uint16), "tiff": int(fmt == "tif"),
            "cli_runs": 0, "storage": {case["storage"]: 1}}
@@ -232,4 +239,5 @@ def gates(obs, tier):
         "all_storage_options": len(obs.get("storage", {})) == 5,
         "command_line_runs": obs.get("cli_runs", 0) > 10,
         "stacks_longer_than_256_slices": obs.get("more_than_256_slices", 0) > 0,
+        "slices_wider_than_256_pixels": obs.get("more_than_256_pixels", 0) > 0,
     }
